@@ -129,6 +129,8 @@ def run_C11(tier, rnd, st, res):
     from raster_model import correspond_c11, correspond_png
     correspond_c11(cases, st, res)
     correspond_png(cases, st, res, rnd, syms, tier)
+    import vecdocs
+    vecdocs.correspond_c11_docs(cases, rnd, syms, tier, st, res)
     res.notes += ['colormap_fallback / colormap_keys / dropped_keys_unused / version_key_exact / darkmodule_key_exact / alignment_key '
                   '(Props/C11Colormap.lean) and png_model_picture_types (Props/C09Png.lean) are proved for Model.makeColormap / Model.writePng',
                   'Tie B (model = code): matrix_iter and matrix_iter(verbose=True) of all 44 versions, cell by cell; every colourful png (IHDR, PLTE, '
